@@ -741,11 +741,15 @@ void http_response_backend_done (request_st * const r) {
 		__attribute_fallthrough__
 	case CON_STATE_WRITE:
 		if (!r->resp_body_finished) {
-			if (r->resp_body_scratchpad > 0
-			    || (r->gw_dechunk && !r->gw_dechunk->done)) {
+			if ((r->resp_body_scratchpad > 0
+			     || (r->gw_dechunk && !r->gw_dechunk->done))
+			    && r->http_method != HTTP_METHOD_HEAD
+			    && r->http_status != 304) {
 				/* backend closed before end of response body
 				 * (less than Content-Length received or
-				 *  chunked body without last-chunk) */
+				 *  chunked body without last-chunk)
+				 * (response to HEAD and 304 Not Modified have no body,
+				 *  but may have Content-Length or Transfer-Encoding) */
 				if (0 == r->resp_header_len) {
 					/*(response headers not yet sent)*/
 					http_response_backend_incomplete(r);
